@@ -50,7 +50,7 @@ inductive PQ2
   | parent (a : AxisInfo) (inp : PQ2)
   | descendant (a : AxisInfo) (self : Bool) (inp : PQ2) (it : Option (Ref × Bool)) (posit level : Nat)
   /-- `it = some (node, first)`; `table` is `a.table` (`none` = nil map) -/
-  | ancestor (a : AxisInfo) (self : Bool) (inp : PQ2) (it : Option (Ref × Bool)) (table : Option (List UInt64))
+  | ancestor (a : AxisInfo) (self : Bool) (inp : PQ2) (it : Option (Ref × Bool)) (table : Option (List String))
   /-- `it = some (node, q)`: the captured cursor and (non-sibling only) the captured `q *descendantQuery` -/
   | following (a : AxisInfo) (sibling : Bool) (inp : PQ2) (it : Option (Ref × Option PQ)) (posit : Nat)
   | preceding (a : AxisInfo) (sibling : Bool) (inp : PQ2) (it : Option (Ref × Option PQ)) (posit : Nat)
@@ -82,11 +82,11 @@ On `yield j` the captured state is `(j, false)`. -/
 def ancIter (d : Doc) (t : Ref → Bool) (self : Bool) (f : Nat) (n : Ref) (first : Bool) : Res Ref :=
   if first && self && t n then .yield n else ancUp d t f n
 
-/-- `for node := a.iterator(); node != nil; node = a.iterator() { node_id := getHashCode(node.Copy());
+/-- `for node := a.iterator(); node != nil; node = a.iterator() { node_id := getNodeKey(node.Copy());
 if _, ok := a.table[node_id]; !ok { a.table[node_id] = true; return node } }`.
 Yields the node and the new table. -/
-def ancLoop (d : Doc) (t : Ref → Bool) (key : Ref → UInt64) (self : Bool) :
-    Nat → Ref → Bool → List UInt64 → Res (Ref × List UInt64)
+def ancLoop (d : Doc) (t : Ref → Bool) (key : Ref → String) (self : Bool) :
+    Nat → Ref → Bool → List String → Res (Ref × List String)
   | 0, _, _, _ => .fuel
   | f+1, n, first, tb =>
     match ancIter d t self f n first with
@@ -231,11 +231,11 @@ def dodInner (d : Doc) (t : Ref → Bool) : Nat → Ref → Nat → Res Unit × 
 
 /-! ## Loops over another query's `Select` (used by union and merge) -/
 
-/-- `for { node := X.Select(t); if node == nil { break }; code := getHashCode(node.Copy());
+/-- `for { node := X.Select(t); if node == nil { break }; code := getNodeKey(node.Copy());
 if _, ok := m[code]; !ok { m[code] = true; list = append(list, node.Copy()) } }`.
 `step` is `X.Select`; returns `list`, `m`, the state of `X` and `t.Current()`; `none` = out of fuel. -/
-def collectU {σ : Type} (step : σ → Ref → Res Ref × σ × Ref) (key : Ref → UInt64) :
-    Nat → σ → Ref → List Ref → List UInt64 → Option (List Ref × List UInt64 × σ × Ref)
+def collectU {σ : Type} (step : σ → Ref → Res Ref × σ × Ref) (key : Ref → String) :
+    Nat → σ → Ref → List Ref → List String → Option (List Ref × List String × σ × Ref)
   | 0, _, _, _, _ => none
   | f+1, q, cur, list, m =>
     match step q cur with
@@ -366,7 +366,7 @@ def PQ2.depth : PQ2 → Nat
 
 /-- One call of `q.Select(t)` with `t.Current() = cur`; returns the answer, the new state of the
 struct and the new `t.Current()`.  `dec pred n` is `f.do(t)` of a filter with predicate `pred` on
-node `n`; `key` is `getHashCode`.  Every loop iteration and nested call costs one unit of fuel. -/
+node `n`; `key` is `getNodeKey` (a string).  Every loop iteration and nested call costs one unit of fuel. -/
 def PQ2.select (d : Doc) (cfg : ECfg) (dec : Plan → Ref → Bool) : Nat → PQ2 → Ref → Out2
   | 0, q, cur => (.fuel, q, cur)
   -- contextQuery: `if c.count > 0 { return nil }; c.count++; return t.Current().Copy()`
